@@ -63,6 +63,7 @@ def cmd_run(prop, tier, runs=None, budget=None, quiet=False):
     lines = []
     known_hits = []
     n_viol = 0
+    reproduced_violations = []
 
     # Harness errors / nondeterminism: exit 2, never 0.
     if batch.harness:
@@ -77,10 +78,11 @@ def cmd_run(prop, tier, runs=None, budget=None, quiet=False):
                                          'tier': tier, 'plan': h['plan'],
                                          'signature': h['signature']}))
                 lines.append('  plan saved to %s' % p)
+    nondet_line = None
     if batch.nondeterministic:
-        exit_code = 2
-        lines.append('HARNESS-ERROR property=%s nondeterministic replays: %d (first seed %s)' % (
-            prop, len(batch.nondeterministic), batch.nondeterministic[0]['seed']))
+        nondet_line = ('property=%s: %d run(s) gave a different event log when executed a second '
+                       'time in the same process (first seed %s)' % (
+                           prop, len(batch.nondeterministic), batch.nondeterministic[0]['seed']))
 
     # Violations: group by signature, shrink, classify.
     by_sig = OrderedDict()
@@ -119,12 +121,42 @@ def cmd_run(prop, tier, runs=None, budget=None, quiet=False):
             # fresh-process replay must reproduce exactly
             rc, out = core.fresh_process_replay(path)
             repro = (rc == 1 and ('VIOLATION property=%s' % prop) in out)
+            if not repro:
+                # The violation may depend on state the library keeps between the runs of one
+                # worker process. Look for a run of the same signature that fails on its own in a
+                # fresh interpreter and minimise it hermetically (one interpreter per candidate).
+                for cand in group[:6]:
+                    c_engine_name = cand.get('engine', engine_name)
+                    fv = core.fresh_verdict(c_engine_name, cand['plan'], prop, tier)
+                    if fv['verdict'] == 'violation' and fv['signature'] == sig:
+                        plan, n_exec = core.hermetic_shrink(
+                            by_engine[c_engine_name], c_engine_name, cand['plan'], prop, tier, sig)
+                        res = core.execute_plan(by_engine[c_engine_name], copy.deepcopy(plan),
+                                                prop, tier)
+                        path = core.write_replay(prop, c_engine_name, plan, sig, res.detail,
+                                                 fv['log_digest'], cand['seed'], tier)
+                        rc, out = core.fresh_process_replay(path)
+                        repro = (rc == 1 and ('VIOLATION property=%s' % prop) in out)
+                        lines.append('  note: this violation depends on state kept by the library '
+                                     'between runs of one process; minimised hermetically')
+                        break
+            if repro:
+                reproduced_violations.append(sig)
             lines.append('VIOLATION property=%s replay=%s' % (prop, path))
             lines.append('  signature=%s runs=%d shrink_execs=%d fresh_replay=%s' % (
                 sig, len(group), n_exec, 'reproduced' if repro else 'NOT-REPRODUCED(rc=%s)' % rc))
             lines.append('  ops=%s' % core.cjson(plan.get('ops'))[:600])
             lines.append('  detail=%s' % core.cjson(res.detail)[:1200])
             exit_code = max(exit_code, 1) if exit_code != 2 else 2
+    if nondet_line is not None:
+        if reproduced_violations:
+            # the library under test keeps state between runs (the replayed violation shows it);
+            # reported as a note next to the violation, not as a harness failure
+            lines.append('  note: ' + nondet_line + ' - consistent with state kept by the library '
+                         'between runs of one process')
+        else:
+            exit_code = 2
+            lines.append('HARNESS-ERROR nondeterministic replays: ' + nondet_line)
     if len(by_sig) > 8:
         lines.append('  (+%d further distinct signatures not minimised)' % (len(by_sig) - 8))
         n_viol += len(by_sig) - 8
